@@ -22,8 +22,8 @@ fn checksum_decision<const EXTRA: usize>() {
     let pp = core::mem::ManuallyDrop::new(PublicParams::X25519(X25519PublicParams { key: x25519_dalek::PublicKey::from([9u8; 32]) }));
     let r = okf(PlainSecretParams::try_from_reader(&wire[..34 + EXTRA], KeyVersion::V4, PublicKeyAlgorithm::X25519, &pp));
     let good = ((sum >> 8) as u8 == ck[0]) && (sum as u8 == ck[1]);
-    kani::cover!(r.is_some(), "a correct checksum is accepted");
     if EXTRA == 0 {
+        kani::cover!(r.is_some(), "maybe: a correct checksum is accepted");
         assert!(r.is_some() == good, "C08: secret key material accepted/refused against: 2-octet checksum == sum of the octets mod 65536");
     } else {
         assert!(r.is_none(), "C08/C05: trailing octets after the checksum accepted");
